@@ -14,3 +14,7 @@ for ml in (0, 1, 2):
     for ll in (0, 1, 2):
         OBS.append(Ob(['C01', 'C14', 'C04'], 'obj_find_m%d_l%d' % (ml, ll), 'filt', 'harness/filt.c', 'h_obj_find', defs=['MLEN=%d' % ml, 'LLEN=%d' % ll], unwind=8, fs=4096, objbits=12, cap=300, hunwind=8,
             desc='ObjectData::getMember / obj[key] on an object whose only key has %d byte(s), looked up with a key of %d byte(s), sized and zero-terminated: found iff identical (empty key, NUL and prefixes included)' % (ml, ll), bound='all values of the key bytes'))
+for yn, wn, kc, sw in [(0, 0, 0, 0), (0, 0, 0, 1), (1, 1, 0, 0), (1, 0, 1, 0), (0, 0, 1, 0), (1, 1, 1, 1), (1, 0, 0, 0)]:
+    OBS.append(Ob(['C18'], 'objeq_%d%d%d%d' % (yn, wn, kc, sw), 'filt', 'harness/filt.c', 'h_objeq', defs=['YN=%d' % yn, 'WN=%d' % wn, 'KC=%d' % kc, 'SW=%d' % sw], unwind=8, fs=4096, objbits=12, cap=300, hunwind=8,
+        desc='object equality {"a":x,"b":%s} vs {"a":z,"%s":%s}%s: equal iff same keys with equal values; a missing key is not a null member; symmetric; != is the negation' % ('null' if yn else 'y', 'c' if kc else 'b', 'null' if wn else 'w', ' (second object built in the other order)' if sw else ''),
+        bound='all byte-sized x,y,z,w; objects built with the low-level API on an arena allocator'))
